@@ -13,7 +13,7 @@
    programs, the pointer-level model — whose wrap branch is the generated one — predicts every
    trace line of the real list). *)
 From Coq Require Import List Arith NArith ZArith Bool.
-From EV Require Import CLModel CLSpec CLHeap CLOps CLRefine CLSim CLMain CLWrap CLWrapSim.
+From EV Require Import CLModel CLSpec CLHeap CLOps CLRefine CLSim CLMain CLWrap CLWrapSim CLFlag.
 From EV.gen Require GenCL.
 Import ListNotations.
 
@@ -112,6 +112,29 @@ Proof.
   exists ss1, ss2, ss3. auto.
 Qed.
 Print Assumptions C19_history_across_a_top_level_wrap_refines_the_spec.
+
+(* the same as ONE run (CLFlag.v: the interpreter never reads the ghost flag — run_from_flagged —, so the continuation from
+   the real post-wrap state is the continuation from the state with the flag cleared): for the program  h1 ++ Append :: h2
+   in which h1 does not wrap, the append takes the overflow branch and h2 does not wrap again, the run from the initial
+   state has exactly the trace of the snapshot specification on the same program *)
+Theorem C19_one_run_across_a_top_level_wrap :
+  forall W behav, core_behav behav ->
+  forall fuel nl h1 l c h h2 s1 s2 s',
+    (1 < W)%N -> core_prog h1 -> core_prog h2 ->
+    run W GenCL.remove_checks_removed GenCL.insert_checks_removed GenCL.owns_checks_removed behav (S fuel) (init nl) h1 = Some s1 -> wrapped s1 = false ->
+    do_append W s1 l c h = Some s2 -> wrapped s2 = true ->
+    run W GenCL.remove_checks_removed GenCL.insert_checks_removed GenCL.owns_checks_removed behav (S fuel) (init nl) (h1 ++ Append l c h :: h2) = Some s' ->
+    (forall s3, run W GenCL.remove_checks_removed GenCL.insert_checks_removed GenCL.owns_checks_removed behav (S fuel) (clear_wrapped s2) h2 = Some s3 -> wrapped s3 = false) ->
+    exists ss', s_run behav (S fuel) (s_init nl) (h1 ++ Append l c h :: h2) = Some ss' /\ strace ss' = trace s'.
+Proof. exact run_across_one_top_level_wrap. Qed.
+Print Assumptions C19_one_run_across_a_top_level_wrap.
+
+Theorem C19_interpreter_never_reads_the_ghost_flag :
+  forall W behav, core_behav behav -> forall fuel st cs, core_prog cs ->
+    run W GenCL.remove_checks_removed GenCL.insert_checks_removed GenCL.owns_checks_removed behav fuel st cs =
+    option_map (up (wrapped st)) (run W GenCL.remove_checks_removed GenCL.insert_checks_removed GenCL.owns_checks_removed behav fuel (clear_wrapped st) cs).
+Proof. exact run_from_flagged. Qed.
+Print Assumptions C19_interpreter_never_reads_the_ghost_flag.
 
 (* non-vacuity of the last theorem: two callbacks, the counter at its maximum, the append that wraps, then an invocation,
    a removal, another addition and another invocation *)
